@@ -10,14 +10,14 @@ EXPLANATION = (
     'Decides necessary structural conditions of C07: TS-IDX (block indexes are re-indexed after every length-changing '
     'mutation of the block list before any index is read and before any public entry returns; interprocedural over the '
     'private helpers), TS-HANDLE (every mutation of a block token list is followed on all normal paths by a rebuild / '
-    're-handling of that block), TS-DETACH (removed ranges have their handles cleared over exactly that range), LEN '
-    '(_len updated exactly once per splice path with inserted-removed; removed count matches the removed slice), '
+    're-handling of that block), LEN (_len updated exactly once per splice path), '
     'OWN-STORE (bookkeeping fields are written only in token_store.py), TS-GATE (the already-in-a-store gate of _splice), '
-    'NAV-FORM (index arithmetic of get_prev/get_next/iter/get_index/insert_* against the handle model), BUILD-PART '
-    '(_build_blocks partitions its input). TS-SEQ: _splice with its helpers inlined is evaluated symbolically (an AST '
+    'NAV-SEM (the navigation and addressing functions, interpreted over every layout of a small family of abstract stores, agree '
+    'with the flat list for every token and token pair, also after a really interpreted mutation that follows a round of queries), '
+    'BUILD-SEM / FROM-SEM (_build_blocks and from_tokens interpreted around their thresholds). TS-SEQ: _splice with its helpers inlined is evaluated symbolically (an AST '
     'interpreter over symbolic token sequences and linear forms, every size test forked) on stores of 1..4 blocks (1..7 in the '
     'thorough tier) for every placement of the replaced range: at return the concatenated block contents equal what a list '
-    'would hold, block indexes and store back-pointers are consistent, every block has fresh handles and size caches, and '
+    'would hold, block indexes and store back-pointers are consistent, every block has fresh handles and size caches, removed tokens have lost their handles, and '
     '_len moved by inserted - removed -- one step of the history induction, for every block layout of that size. It does NOT '
     'decide the split/merge thresholds themselves (any load factor is sound for the sequence semantics) or the text of '
     'positions (C08).')
